@@ -1,6 +1,8 @@
 package wire
 
 import (
+	"strconv"
+
 	psqlerr "github.com/jeroenrinzema/psql-wire/errors"
 	"github.com/jeroenrinzema/psql-wire/pkg/buffer"
 	"github.com/jeroenrinzema/psql-wire/pkg/types"
@@ -61,7 +63,7 @@ func ErrorCode(writer *buffer.Writer, err error) error {
 		writer.AddNullTerminate()
 
 		writer.AddByte(byte(errFieldSrcLine))
-		writer.AddInt32(desc.Source.Line)
+		writer.AddString(strconv.Itoa(int(desc.Source.Line)))
 		writer.AddNullTerminate()
 
 		writer.AddByte(byte(errFieldSrcFunction))
